@@ -24,7 +24,7 @@ from ser import Ids, Ser, Unsupported, rat, env_text, bits_to_float
 from props import c13 as _c13
 
 LEAN_MODULE = "Optyx.Props.C12"
-EXTRA_MODULES = ["Optyx.Props.PinsC12", "Optyx.Props.BuildTie"]   # transcription anchors (harness/source_pins.py)
+EXTRA_MODULES = ["Optyx.Props.PinsC12", "Optyx.Props.BuildTie", "Optyx.Props.CompileEntryTie"]   # transcription anchors (harness/source_pins.py)
 THEOREMS = [
     "Optyx.Props.C12.denote_substParams",
     "Optyx.Props.C12.grad_substParams",
@@ -37,6 +37,10 @@ THEOREMS = [
     "Optyx.Props.C12.param_refinement",
     "Optyx.Props.BuildTie.compile_step",
     "Optyx.Props.BuildTie.compileVec_step",
+    "Optyx.Props.CompileEntryTie.compileExpression_eq",
+    "Optyx.Props.CompileEntryTie.dictFn_eq",
+    "Optyx.Props.CompileEntryTie.param_run",
+    "Optyx.Props.CompileEntryTie.compiledExpression_value",
     "Optyx.Props.PinsC12.anchors",
 ]
 ASSUMPTIONS = [
